@@ -511,12 +511,15 @@ def w_ops(ctx, rng, i):
         if smooth:
             tol = 0.5 if op == "warp_pwa" else 1.5     # smooth warps: bilinear decoding (across mesh kinks / spline curvature) is only a sanity bound; exactness is judged through T(L') = L
         opts = {"transform": type(t).__name__}
+        bsz = [None, None, 7, 150, 5000][rng.integers(0, 5)]      # the documented optional batching of the coordinate transform
+        bkw = {} if bsz is None else {"batch_size": bsz}
+        opts["batched"] = bsz is not None
         try:
             if op == "warp_to_mask_affine":
                 tm = mi.BooleanImage(gen.mask(rng, tshape, ["all", "block", "halfplane"][rng.integers(0, 3)]))
                 opts["mask_all_true"] = bool(tm.all_true())
                 only = tm.mask.copy()
-                res, T = call(src.warp_to_mask, rt, tm, t, warp_landmarks=True)
+                res, T = call(src.warp_to_mask, rt, tm, t, warp_landmarks=True, **bkw)
                 if cls == "MaskedImage" and not np.array_equal(res.mask.pixels, tm.pixels):
                     ctx.fail("warp_to_mask_result_does_not_carry_the_template_mask", cls=cls)
                 if cls != "BooleanImage" and not tm.all_true():
@@ -527,10 +530,10 @@ def w_ops(ctx, rng, i):
                         res.mask.pixels[0][~tm.mask] = (half[0] @ np.zeros(d) - half[1]) > 0
                 results.append((res, T))
             elif op == "warp_chain":
-                res, T = call(src.warp_to_shape, rt, tshape, t, warp_landmarks=False)
+                res, T = call(src.warp_to_shape, rt, tshape, t, warp_landmarks=False, **bkw)
                 results.append((res, T))
             else:
-                results.append(call(src.warp_to_shape, rt, tshape, t, warp_landmarks=True))
+                results.append(call(src.warp_to_shape, rt, tshape, t, warp_landmarks=True, **bkw))
         except Exception as e:
             from menpo.transform.piecewiseaffine.base import TriangleContainmentError
             if isinstance(e, TriangleContainmentError):
@@ -604,7 +607,8 @@ def w_reuse(ctx, rng, i):
                 P = (tpl - TS / 2.0) @ gen.well_conditioned(rng, 2, 0.8, 1.3).T + S / 2.0
             t.set_target(ms.PointCloud(P))
         src.landmarks["g0"] = ms.PointCloud(P.copy())
-        res, T = call(src.warp_to_shape, bool(rng.random() < 0.5), tshape, t, warp_landmarks=True)
+        bsz = [None, None, 11, 400][rng.integers(0, 4)]
+        res, T = call(src.warp_to_shape, bool(rng.random() < 0.5), tshape, t, warp_landmarks=True, **({} if bsz is None else {"batch_size": bsz}))
         judged += judge(ctx, src, res, T, W, b, half, "reuse_" + kind, {"step": min(step, 2)}, tol, smooth=(kind != "affine"), Tknown=t)
     ctx.count_case((cls, "reuse", kind, n_steps), nontrivial=judged >= 3, sample={"cls": cls, "kind": kind, "steps": n_steps} if i < 2 else None)
 
